@@ -27,7 +27,12 @@ const prelude = "SecRuleEngine On\n" +
 	"SecResponseBodyLimitAction ProcessPartial\n" +
 	"SecDataset d1 " + bt + "\nzzz\nk\n" + bt + "\n" +
 	"SecDataset dip " + bt + "\n10.0.0.0/8\n::1\n" + bt + "\n" +
-	"SecAction \"id:90,phase:1,pass,nolog,setvar:tx.b=k,setvar:tx.n=1\"\n"
+	"SecAction \"id:90,phase:1,pass,nolog,setvar:tx.b=k,setvar:tx.n=1\"\n" +
+	// the body-processor selection of coraza.conf-recommended, so that JSON and XML bodies are parsed
+	"SecRule REQUEST_HEADERS:Content-Type \"^application/json\" \"id:93,phase:1,pass,nolog,ctl:requestBodyProcessor=JSON\"\n" +
+	"SecRule REQUEST_HEADERS:Content-Type \"^text/xml\" \"id:94,phase:1,pass,nolog,ctl:requestBodyProcessor=XML\"\n" +
+	"SecRule RESPONSE_HEADERS:Content-Type \"^application/json\" \"id:95,phase:3,pass,nolog,ctl:responseBodyProcessor=JSON\"\n" +
+	"SecRule RESPONSE_HEADERS:Content-Type \"^text/xml\" \"id:96,phase:3,pass,nolog,ctl:responseBodyProcessor=XML\"\n"
 
 const companions = "SecRule ARGS \"@rx zzz\" \"id:91,phase:2,pass,log,tag:t1,msg:'m1'\"\n" +
 	"SecRule RESPONSE_BODY \"@contains zzz\" \"id:92,phase:4,pass,log,tag:t1\"\n" +
@@ -110,6 +115,7 @@ func forEachCase(thorough bool, f func(k kase)) map[string]int {
 	genVariables(e, vars)
 	genTransformations(e)
 	genRoles(e)
+	genContexts(e)
 	genLoud(e, vars)
 	return e.counts
 }
@@ -284,7 +290,7 @@ func genActions(e *emitter, vars []string) {
 		vals = append(vals, specificValues[name]...)
 		for _, v := range vals {
 			for ti, t := range tmpl {
-				e.holeAt(fmt.Sprintf("action:%s:t%d", name, ti), t(name+v), false, ti == 1 && !strings.Contains(v, big))
+				e.holeAt(fmt.Sprintf("action:%s:t%d", name, ti), t(name+v), false, (ti == 1 || ti == 2) && !strings.Contains(v, big))
 			}
 		}
 		// a macro naming every variable as the value of every action
@@ -429,7 +435,7 @@ func genVariables(e *emitter, vars []string) {
 				continue
 			}
 			// edits on the single-rule form
-			e.holeAt("variable1:"+v, fmt.Sprintf("SecRule %s \"@unconditionalMatch\" \"id:1,phase:5,pass,msg:'%%{MATCHED_VAR_NAME}'\"", sel), false, v == "ARGS" || v == "XML" || v == "JSON" || v == "TX" || v == "REQUEST_HEADERS")
+			e.holeAt("variable1:"+v, fmt.Sprintf("SecRule %s \"@unconditionalMatch\" \"id:1,phase:5,pass,msg:'%%{MATCHED_VAR_NAME}'\"", sel), false, true)
 			// as the target added or excluded afterwards
 			e.holeAt("variable-update:"+v, fmt.Sprintf("SecRule ARGS \"@unconditionalMatch\" \"id:1,phase:5,pass,tag:t2\"\nSecRuleUpdateTargetById 1 %s\nSecRuleUpdateTargetByTag t2 %s", sel, sel), false, false)
 		}
@@ -500,6 +506,41 @@ func genRoles(e *emitter) {
 				e.raw("roles:one-waf:"+a.name+"+"+b.name, prelude+ca+"\n"+strings.ReplaceAll(cb, "id:", "id:10")+"\n"+companions, "")
 				// two WAFs alive at the same time
 				e.raw("roles:two-wafs:"+a.name+"+"+b.name, prelude+ca+"\n"+companions, prelude+cb+"\n"+companions)
+			}
+		}
+	}
+}
+
+// ---- other engine contexts: a sample of the action and ctl classes -------------------
+
+var engineContexts = []string{
+	"SecRuleEngine DetectionOnly\n",
+	"SecRequestBodyLimitAction Reject\nSecResponseBodyLimitAction Reject\n",
+	"SecRequestBodyAccess Off\nSecResponseBodyAccess Off\n",
+	"SecRequestBodyInMemoryLimit 16\nSecUploadDir @@S@@\nSecUploadKeepFiles On\nSecUploadFileLimit 1\n",
+	"SecRuleEngine Off\n",
+	"SecArgumentsLimit 2\nSecRequestBodyJsonDepthLimit 1\nSecResponseBodyMimeTypesClear\n",
+}
+
+func genContexts(e *emitter) {
+	for ci, ctx := range engineContexts {
+		class := fmt.Sprintf("context:%d", ci)
+		for _, name := range actionNames {
+			vals := append([]string{"", ":1"}, specificValues[name]...)
+			for _, v := range vals {
+				if name == "chain" && v != "" && v[0] != ':' {
+					continue
+				}
+				var sb strings.Builder
+				for p := 1; p <= 4; p++ {
+					fmt.Fprintf(&sb, "SecRule ARGS|REQUEST_HEADERS|RESPONSE_HEADERS \"@rx k\" \"id:%d,phase:%d,deny,status:403,%s%s\"\n", p, p, name, v)
+				}
+				e.raw(class+":action", prelude+ctx+sb.String()+companions, "")
+			}
+		}
+		for _, opt := range ctlOptions {
+			for _, v := range append([]string{"", "-1", "0", "1", "On", "Off"}, ctlSpecific[opt]...) {
+				e.raw(class+":ctl", prelude+ctx+fmt.Sprintf("SecAction \"id:1,phase:1,pass,ctl:%s=%s\"\nSecAction \"id:2,phase:3,pass,ctl:%s=%s\"\n", opt, v, opt, v)+companions, "")
 			}
 		}
 	}
